@@ -511,6 +511,117 @@ def run_pairs(chk, kernels, pairs, invariants, label, key_prefix, max_violations
     return stats
 
 
+def corruption_control(chk, kernels, what, invariants, expect):
+    """Cheap binding control: corrupt ONE field of one recorded kernel; TLC must reject it with invariant `expect`."""
+    import copy  # noqa: PLC0415
+
+    cands = sorted((k for k in kernels if k["variant"] == "full" and (k["steps"] or 0) < 3000), key=lambda k: k["steps"])
+    for k in cands:
+        kk = copy.deepcopy(k)
+        code = kk["code"]
+        done = False
+        if what == "loop-bound+1":                       # the innermost loop runs one iteration too many
+            for ins in reversed(code):
+                if ins["op"] == "loop" and ins["e"]["k"] == "lit":
+                    ins["e"]["v"] += 1
+                    done = True
+                    break
+        elif what == "A-assign":                          # A[..] += e  becomes  A[..] = e
+            for ins in code:
+                if ins["op"] == "aadd" and ins["lhs"].get("a") == "A":
+                    ins["op"] = "assign"
+                    done = True
+                    break
+        elif what == "duplicate-declaration":             # a scalar declared twice in one scope
+            for i, ins in enumerate(code):
+                if ins["op"] == "vdecl":
+                    code.insert(i + 1, copy.deepcopy(ins))
+                    for j in code:                        # keep jump targets consistent
+                        if j["op"] == "loop" and j["end"] > i + 1:
+                            j["end"] += 1
+                        if j["op"] == "endloop" and j["start"] > i + 1:
+                            j["start"] += 1
+                    done = True
+                    break
+        elif what == "use-before-declaration":            # a symbol read that no open scope declares
+            for ins in code:
+                if ins["op"] == "vdecl" and ins["val"]["k"] != "none":
+                    ins["val"] = {"k": "sym", "t": ins["t"], "n": "s4_undeclared"}
+                    done = True
+                    break
+        if not done:
+            continue
+        kk["inimode"], kk["extra"], kk["runplanes"] = "base", [], [1]
+        d = tlc.stage(f"s4-control-{what}", modules=["Kernel"])
+        inp = d / "in.json"
+        inp.write_text(json.dumps({"kernels": [_tlc_kernel(kk)]}))
+        cfg = "INIT Init\nNEXT Next\nINVARIANTS " + " ".join(invariants) + "\nALIAS Brief\n"
+        r = tlc.run(d, "Kernel", cfg_text=cfg, workers=1, env={"S4_INPUT": str(inp)}, dfs_queue=True, timeout=600)
+        if r.violated != expect:
+            raise MachineryError(f"binding control '{what}' on {k['label']} was not rejected by {expect} (TLC: {r.violated}) - the check is vacuous")
+        chk.add(controls_rejected=[f"{what} on {k['label']} -> {expect}"])
+        return
+    chk.add(controls_not_applicable=[what])
+
+
+def flags_control(chk, kernels):
+    """All enabled flags cleared on a kernel that reads w: ReadsOnlyEnabled must reject."""
+    import copy  # noqa: PLC0415
+
+    for k in sorted((k for k in kernels if k["ext"]["w"] > 0 and any(k["enabled"]) and (k["steps"] or 0) < 3000), key=lambda k: k["steps"]):
+        kk = copy.deepcopy(k)
+        kk["enabled"] = [False] * len(kk["enabled"])
+        kk["inimode"], kk["extra"], kk["runplanes"] = "base", [], [1]
+        d = tlc.stage("s4-control-flags", modules=["Kernel"])
+        inp = d / "in.json"
+        inp.write_text(json.dumps({"kernels": [_tlc_kernel(kk)]}))
+        r = tlc.run(d, "Kernel", cfg_text="INIT Init\nNEXT Next\nINVARIANTS ReadsOnlyEnabled\nALIAS Brief\n", workers=1,
+                    env={"S4_INPUT": str(inp)}, dfs_queue=True, timeout=600)
+        if r.violated != "ReadsOnlyEnabled":
+            raise MachineryError(f"binding control 'flags cleared' on {k['label']} was not rejected (TLC: {r.violated})")
+        chk.add(controls_rejected=[f"enabled flags cleared on {k['label']} -> ReadsOnlyEnabled"])
+        return
+
+
+def pair_control(chk, kernels, pairs):
+    """One literal of the unoptimised program changed: Equivalent must reject the pair."""
+    import copy  # noqa: PLC0415
+
+    by = {k["name"]: k for k in kernels}
+
+    def bump(e):
+        if isinstance(e, dict):
+            if e.get("k") == "lit" and e.get("t") in ("R", "S"):
+                e["v"] = (e["v"] + 1) % P
+                return True
+            return any(bump(v) for v in e.values() if isinstance(v, dict | list))
+        if isinstance(e, list):
+            return any(bump(v) for v in e)
+        return False
+    for p in sorted((p for p in pairs if p["mode"] == "equiv" and (by[p["a"]]["steps"] or 0) < 2500), key=lambda p: by[p["a"]]["steps"]):
+        ka, kb = copy.deepcopy(by[p["a"]]), copy.deepcopy(by[p["b"]])
+        hit = False
+        for ins in ka["code"]:
+            if ins["op"] in ("vdecl",) and ins["val"]["k"] != "none" and bump(ins["val"]):
+                hit = True
+                break
+        if not hit:
+            continue
+        ka["name"] = ka["name"] + "#corrupted"
+        doc = {"kernels": [_tlc_kernel(ka), _tlc_kernel(kb)],
+               "pairs": [{"mode": "equiv", "a": 1, "b": 2, "pa": 1, "pb": 1, "inimode": "base"}]}
+        d = tlc.stage("s4-control-pair", modules=["Kernel", "KernelPair"])
+        inp = d / "in.json"
+        inp.write_text(json.dumps(doc))
+        r = tlc.run(d, "KernelPair", cfg_text="INIT Init\nNEXT Next\nINVARIANTS Equivalent PairClean\nALIAS Brief\n", workers=1,
+                    env={"S4_INPUT": str(inp)}, dfs_queue=True, timeout=600)
+        if r.violated == "Equivalent":
+            chk.add(controls_rejected=[f"one literal changed in {by[p['a']]['name']} -> Equivalent"])
+            return
+        # a literal that does not reach A (e.g. multiplied by zero) - try the next kernel
+    chk.add(controls_not_applicable=["pair literal"])
+
+
 # ---------------------------------------------------------------------------------------------
 def _tier_cfg(chk):
     quick = chk.tier == "quick"
@@ -563,6 +674,7 @@ def run_c08(chk):
         k["runplanes"] = [1]
         nin += choose_inis(k, chk.seed, cfgt["budget_all"], cfgt["nrandom"])
     st = run_kernels(chk, sel, ["NoDeref", "InBounds"], "c08")
+    corruption_control(chk, sel, "loop-bound+1", ["NoDeref", "InBounds"], "InBounds")
     naccess = sum(sum(1 for ins in k["code"] if ins["op"] in ("assign", "aadd", "vdecl")) for k in sel)
     chk.add(traces_validated_against_impl=len(sel), evaluations=st["runs"], distinct_nontrivial=st["runs"],
             kernels=len(sel), entity_permutation_vectors=nin, statements_with_accesses=naccess,
@@ -588,8 +700,9 @@ def run_c07(chk):
     sel = _select(chk, kernels, cfgt["max_steps"])
     for k in sel:
         k["runplanes"] = [2]                       # random A0
-        choose_inis(k, chk.seed, 0, 0 if cfgt["quick"] else 3, force="base")
+        choose_inis(k, chk.seed, 0, 0 if cfgt["quick"] else (3 if k["steps"] < 50000 else 1), force="base")
     st = run_kernels(chk, sel, ["WriteDiscipline", "NoUninitialisedRead"], "c07")
+    corruption_control(chk, sel, "A-assign", ["WriteDiscipline", "NoUninitialisedRead"], "WriteDiscipline")
     # value level: Additive and Repeatable on the machine
     lim = 2500 if cfgt["quick"] else 30000
     small = [k for k in sel if k["steps"] <= lim]
@@ -625,6 +738,7 @@ def run_reads(chk):
         k["runplanes"] = [1]
         choose_inis(k, chk.seed, 0, 1 if cfgt["quick"] else 3, force="base")
     st = run_kernels(chk, sel, ["ReadsOnlyEnabled"], "c05")
+    flags_control(chk, sel)
     dis = [k for k in sel if not all(k["enabled"]) and k["steps"] <= (6000 if cfgt["quick"] else 60000)]
     pairs = [{"mode": "disabled", "a": k["name"], "b": k["name"], "pa": p, "pb": p, "inimode": "base"}
              for k in dis for p in ((1,) if cfgt["quick"] else (1, 3, 5))]
@@ -683,6 +797,7 @@ def run_optimizer(chk):
         for p in nplanes:
             pairs.append({"mode": "equiv", "a": k["name"], "b": f["name"], "pa": p, "pb": p, "inimode": "base"})
     ps = run_pairs(chk, list(used.values()), pairs, ["Equivalent", "PairClean"], "c17", "C17")
+    pair_control(chk, list(used.values()), pairs)
     differing = sum(1 for k in used.values() if k["variant"] != "full" and
                     json.dumps(k["code"]) != json.dumps(full[k["label"]]["code"]))
     chk.add(optimizer_pairs=ps["pairs_done"], optimizer_pairs_outside_value_model=ps["dz"], optimizer_calls_recorded=bst["opt_calls"],
@@ -941,6 +1056,8 @@ def run_names(chk, werror=True):
         k["runplanes"] = [1]
         choose_inis(k, chk.seed, 0, 1, force="base")
     st = run_kernels(chk, sel, ["ScopeDiscipline", "UniqueNames"], "c19")
+    corruption_control(chk, sel, "duplicate-declaration", ["ScopeDiscipline", "UniqueNames"], "UniqueNames")
+    corruption_control(chk, sel, "use-before-declaration", ["ScopeDiscipline", "UniqueNames"], "ScopeDiscipline")
     ndecl = sum(sum(1 for ins in k["code"] if ins["op"] in ("vdecl", "adecl", "loop")) for k in sel)
     rs = rule_ids(chk)
     chk.add(traces_validated_against_impl=len(sel) + rs["rules"], evaluations=st["runs"] + rs["pairs_checked"],
